@@ -6,5 +6,5 @@ mkdir -p work
 gcc -O2 -shared -fPIC -o work/iotrace.so iotrace/iotrace.c -ldl -lpthread
 (cd lean && lake build)
 [ -f harness/Cargo.lock ] || cp /repo/Cargo.lock harness/Cargo.lock
-(cd harness && CARGO_NET_OFFLINE=true cargo build --offline)
+(cd harness && CARGO_NET_OFFLINE=true cargo build --offline --target-dir "$(pwd)/../work/harness-target")
 echo setup-ok
